@@ -36,7 +36,7 @@ m = {
     }, {
         "name": "registry-sim", "path": "/verif/registrysim",
         "serves_properties": sorted(p for p in PROPS if "script" in PROPS[p]),
-        "kind_free_text": "crash-point and fault enumeration of the real registry install pipeline on a scratch directory tree: os calls behind an injected shim, in-process network, scripted verifier",
+        "kind_free_text": "crash-point and fault enumeration of the real registry install pipeline on a scratch directory tree, plus two installs interleaved at every file-system operation and lock wait by a seeded scheduler: os calls and the lock wait behind an injected shim, in-process network, scripted verifier",
     }],
     "checks": checks,
     "not_applicable": NOT_APPLICABLE,
